@@ -12,6 +12,8 @@
 #include "../sim/simtsan.h"
 #include "gen_json.h"
 #include "tok_util.h"
+#include <unistd.h>
+#include <functional>
 #include <algorithm>
 #include <array>
 extern "C" {
@@ -45,7 +47,7 @@ struct C18 : Property
 	std::vector<std::string> probes() const override
 	{
 		return {"W1.last_put_by_non_creator_thread", "W1.switch_inside_put_before_destroy", "W1.container_children_destroyed_once", "W1.three_or_more_threads", "W1.thread_holds_child_of_shared_container", "W3.two_threads_past_unset_test_before_cas",
-		        "W3.seed_source_returned_minus_one", "W3.lost_cas_thread_uses_winner_seed", "W3.default_hash_selected_again_after_first_use", "W1.owner_replaces_userdata_before_its_put", "W4.disjoint_trees_no_conflict", "sched.pct_policy", "sched.random_policy", "atomics.seen"};
+		        "W3.seed_source_returned_minus_one", "W3.lost_cas_thread_uses_winner_seed", "W3.default_hash_selected_again_after_first_use", "W1.owner_replaces_userdata_before_its_put", "W4.threads_are_first_users_in_a_fresh_process", "W4.disjoint_trees_no_conflict", "sched.pct_policy", "sched.random_policy", "atomics.seen"};
 	}
 	std::vector<std::string> probes_expected_zero() const override { return {"W1.switch_between_load_and_store_of_counter"}; }
 	std::vector<std::string> real_components() const override
@@ -67,6 +69,8 @@ struct C18 : Property
 		int w = (int)r.below(10);
 		int workload = w < 7 ? 1 : w < 9 ? 4 : 3;
 		p.cfg["workload"] = workload;
+		if (workload == 4)
+			p.cfg["virgin"] = r.chance(1, 6); // executed in a fresh process, the threads are the first users of everything but the hash seed
 		p.cfg["sched_seed"] = (int64_t)(r.next() >> 8);
 		p.cfg["pct"] = r.chance(1, 3) ? (int64_t)r.range(2, 4) : 0;
 		p.cfg["p_atomic"] = (int64_t)r.pick(std::vector<int>{50, 200, 500, 900});
@@ -117,7 +121,9 @@ struct C18 : Property
 				go.size_budget = 60;
 				JsonGen g(r, go);
 				g.value(0);
-				o.data = g.out;
+				// every job also carries one token of each kind (escapes with hex letters, surrogates, exponent, literals): whatever the
+				// library initialises lazily on first use of a token kind is then first used by several threads at once (virgin runs)
+				o.data = "[" + g.out + ",\"\\u00e9\\u007A\\uD83D\\uDE00\\n\",-1.5e3,true,false,null,{\"k\":12345678901234567890}]";
 				o.a = {t, (int64_t)r.below(1000)};
 				p.ops.push_back(o);
 			}
@@ -296,6 +302,17 @@ struct C18 : Property
 		out += LIB(json_pointer_get(root, "/arr/1", &got)) == 0 ? ";" + typed_dump(got) : ";-";
 		LIB(json_pointer_set(&cp, "/arr/0", json_object_new_string("set")));
 		out += LIB(json_object_to_json_string_ext(cp, JSON_C_TO_STRING_SPACED | JSON_C_TO_STRING_PRETTY));
+		// the same text through the descriptor entry point, each thread on its own (simulated) file
+		{
+			std::string path = "/jsim/w4-" + std::to_string(salt) + "-" + std::to_string(std::hash<std::string>{}(text)) + ".json";
+			g_fd.files[path] = text;
+			int fd = g_fd.open_sim(path, true, false, false, false);
+			struct json_object *fo = LIB(json_object_from_fd(fd));
+			close(fd);
+			out += ";fd:" + typed_dump(fo);
+			if (fo)
+				LIBV(json_object_put(fo));
+		}
 		struct json_object *ref = LIB(json_object_get(root));
 		LIBV(json_object_put(ref));
 		LIBV(json_object_put(cp));
@@ -348,7 +365,8 @@ struct C18 : Property
 	void run(const Plan &p, RunCtx &ctx) override
 	{
 		int workload = (int)p.c("workload", 1);
-		if (workload == 3 && (process_dirty || !getenv("JSIM_EMIT_COV")))
+		bool virgin4 = workload == 4 && p.c("virgin") != 0;
+		if ((workload == 3 || virgin4) && (process_dirty || !getenv("JSIM_EMIT_COV")))
 		{
 			// (always in a child: a seed-race run executed directly would leave ITS winner's seed in this worker process, and the
 			//  event logs of later runs depend on the seed value through the number of probe steps in the hash tables)
@@ -493,8 +511,11 @@ struct C18 : Property
 			if (jobs.size() < 2)
 				return;
 			nthreads = (int)jobs.size();
-			for (auto &j : jobs)
-				refs.push_back(tree_work(j.text, j.salt)); // single-thread reference, before the simulation
+			if (!virgin4)
+				for (auto &j : jobs)
+					refs.push_back(tree_work(j.text, j.salt)); // single-thread reference, before the simulation
+			else
+				ctx.probe("W4.threads_are_first_users_in_a_fresh_process");
 		}
 		else
 		{
@@ -587,6 +608,9 @@ struct C18 : Property
 		}
 		else if (workload == 4)
 		{
+			if (virgin4)
+				for (auto &j : jobs)
+					refs.push_back(tree_work(j.text, j.salt)); // (reference taken afterwards: nothing ran in this process before the threads)
 			for (size_t i = 0; i < jobs.size(); i++)
 				if (jobs[i].result != refs[i])
 					ctx.fail("C18:disjoint-trees-interfere", "thread %zu working on its own tree got %s ; alone it gets %s", i, jobs[i].result.substr(0, 200).c_str(), refs[i].substr(0, 200).c_str());
